@@ -440,3 +440,46 @@ def syntax_mutants(name, text, step=1):
         yield ('syntax-duplicate', t.upper() if kind == 'id' and t.upper() in MUST_REJECT_DELETE else kind,
                (kind in ('id', 'int', 'real', 'str') or t in ('(', ')', '[', ']', ':=', ':', '=')) and not (t in ('-', '+') or t.upper() == 'NOT'),
                text[:off] + t + ' ' + text[off:])
+
+def diagnostic_catalogue():
+    """one small schema per parametrised diagnostic of the front end's table that the other families do not raise: the planted name carries a
+    zq_ prefix and must be the text the diagnostic quotes; (case class, expected table entries, planted, declarations)"""
+    E = lambda body: 'SCHEMA zq_cat;\n' + body + '\nEND_SCHEMA;\n'
+    base = 'TYPE col = ENUMERATION OF (red, green); END_TYPE;\nENTITY sup; a : REAL; END_ENTITY;\n'
+    C = [
+        ('attribute-on-aggregate', ['ATTRIBUTE_REF_ON_AGGREGATE'], 'zq_x', base + 'ENTITY e; l : LIST OF sup; DERIVE d : REAL := l.zq_x; END_ENTITY;'),
+        ('attribute-on-non-entity', ['ATTRIBUTE_REF_FROM_NON_ENTITY'], 'zq_x', base + 'ENTITY e; w : REAL; DERIVE d : REAL := w.zq_x; END_ENTITY;'),
+        ('enum-no-such-item', ['ENUM_NO_SUCH_ITEM'], 'zq_item', base + 'ENTITY e; c : col; WHERE w1 : c <> col.zq_item; END_ENTITY;'),
+        ('group-no-such-entity', ['GROUP_REF_NO_SUCH_ENTITY'], 'zq_ent', base + 'ENTITY e SUBTYPE OF (sup); WHERE w1 : SELF\\zq_ent.a > 0.0; END_ENTITY;'),
+        ('group-of-non-entity', ['GROUP_REF_UNEXPECTED_TYPE'], 'zq_w', base + 'ENTITY e; zq_w : LIST OF REAL; h : REAL; DERIVE d : REAL := zq_w\\h; END_ENTITY;'),
+        ('group-of-non-entity', ['GROUP_REF_UNEXPECTED_TYPE'], 'zq_w', base + 'ENTITY e; zq_w : REAL; h : REAL; DERIVE d : REAL := zq_w\\h; END_ENTITY;'),
+        ('group-of-non-entity', ['GROUP_REF_UNEXPECTED_TYPE'], 'zq_w', base + 'ENTITY e; zq_w : col; WHERE w1 : zq_w\\sup.a > 0.0; END_ENTITY;'),
+        ('unlabelled-generic', ['UNLABELLED_PARAM_TYPE'], 'zq_f', base + 'FUNCTION zq_f (p : GENERIC) : GENERIC; RETURN (p); END_FUNCTION;'),
+        ('supertype-not-entity', ['SUPERTYPE_RESOLVE'], 'zq_t', base + 'TYPE zq_t = REAL; END_TYPE;\nENTITY e SUBTYPE OF (zq_t); END_ENTITY;'),
+        ('subtype-not-entity', ['SUBTYPE_RESOLVE'], 'zq_t', base + 'TYPE zq_t = REAL; END_TYPE;\nENTITY e SUPERTYPE OF (ONEOF (zq_t, f)); END_ENTITY;\nENTITY f SUBTYPE OF (e); END_ENTITY;'),
+        ('not-a-type', ['NOT_A_TYPE'], 'zq_f', base + 'FUNCTION zq_f (p : REAL) : REAL; RETURN (p); END_FUNCTION;\nENTITY e; x : zq_f; END_ENTITY;'),
+        ('call-of-non-function', ['FUNCALL_NOT_A_FUNCTION'], 'zq_t', base + 'TYPE zq_t = REAL; END_TYPE;\nENTITY e; x : REAL; WHERE w1 : zq_t (x) > 0.0; END_ENTITY;'),
+        ('call-of-non-function', ['FUNCALL_NOT_A_FUNCTION'], 'zq_c', base + 'CONSTANT zq_c : REAL := 1.0; END_CONSTANT;\nENTITY e; x : REAL; WHERE w1 : zq_c (x) > 0.0; END_ENTITY;'),
+        ('function-as-procedure', ['EXPECTED_PROC'], 'zq_f', base + 'FUNCTION zq_f (p : REAL) : REAL; RETURN (p); END_FUNCTION;\nPROCEDURE q; zq_f (1.0); END_PROCEDURE;'),
+        ('no-such-procedure', ['NO_SUCH_PROCEDURE'], 'zq_p', base + 'PROCEDURE q; zq_p (1.0); END_PROCEDURE;'),
+        ('entity-as-underlying-type', ['TYPE_IS_ENTITY'], 'zq_e', base + 'ENTITY zq_e; END_ENTITY;\nTYPE t = zq_e; END_TYPE;'),
+        ('redeclared-no-such-attribute', ['REDECL_NO_SUCH_ATTR'], 'zq_a', base + 'ENTITY e SUBTYPE OF (sup); SELF\\sup.zq_a : REAL; END_ENTITY;'),
+        ('redeclared-no-such-supertype', ['REDECL_NO_SUCH_SUPERTYPE'], 'zq_s', base + 'ENTITY e SUBTYPE OF (sup); SELF\\zq_s.a : REAL; END_ENTITY;'),
+        ('domain-rule-without-self', ['MISSING_SELF'], 'zq_w', base + 'TYPE t = REAL; WHERE zq_w : 1 > 0; END_TYPE;'),
+        ('undefined-tag', ['UNDEFINED_TAG'], 'zq_tag', base + 'FUNCTION f (p : AGGREGATE OF REAL) : AGGREGATE:zq_tag OF REAL; RETURN (p); END_FUNCTION;'),
+        ('empty-select', ['SELECT_EMPTY'], 'zq_s', base + 'TYPE zq_s = SELECT (); END_TYPE;'),
+        ('circular-definition', ['CIRCULAR_REFERENCE'], 'zq_t', base + 'TYPE zq_t = LIST OF zq_t; END_TYPE;'),
+        ('circular-definition', ['CIRCULAR_REFERENCE'], 'zq_t', base + 'TYPE zq_t = zq_u; END_TYPE;\nTYPE zq_u = zq_t; END_TYPE;'),
+        ('include-missing', ['INCLUDE_FILE'], 'zq_inc', base + "INCLUDE 'zq_inc.exp';"),
+        ('inverse-of-non-entity', ['INVERSE_BAD_ENTITY'], 'zq_a', base + 'TYPE rr = REAL; END_TYPE;\nENTITY e; INVERSE i : SET OF rr FOR zq_a; END_ENTITY;'),
+        ('always-true-branch', ['FN_SKIP_BRANCH'], 'true', base + 'FUNCTION f (p : REAL) : REAL; IF TRUE THEN RETURN (p); ELSE RETURN (0.0); END_IF; END_FUNCTION;'),
+        ('case-label', ['CASE_SKIP_LABEL'], 'zq_l', base + 'FUNCTION f (p : INTEGER) : REAL; CASE p OF zq_l : RETURN (1.0); OTHERWISE : RETURN (0.0); END_CASE; END_FUNCTION;'),
+    ]
+    for cls, codes, planted, body in C:
+        c = {'kind': 'catalogue', 'cls': cls, 'expect': codes, 'detail': codes[0], 'planted': planted, 'name': 'cat', 'text': E(body)}
+        if 'zq_u' in body:
+            c['planted_alts'] = ['zq_t', 'zq_u']      # a cycle of two: either member names it
+        yield c
+    # a schema looked up through EXPRESS_PATH whose file holds another schema
+    yield {'kind': 'catalogue', 'cls': 'schema-not-in-own-file', 'expect': ['SCHEMA_NOT_IN_OWN_SCHEMA_FILE'], 'detail': 'SCHEMA_NOT_IN_OWN_SCHEMA_FILE', 'planted': 'zq_ext', 'name': 'cat',
+           'text': 'SCHEMA zq_cat;\nREFERENCE FROM zq_ext (thing);\nEND_SCHEMA;\n', 'extra_files': {'zq_ext.exp': 'SCHEMA zq_other;\nENTITY thing; END_ENTITY;\nEND_SCHEMA;\n'}}
